@@ -348,6 +348,55 @@ theorem c13_alias_rename_keeps_text (h : List (POp Text)) (hn : 3 * (h.length + 
     · simp [e, hm]
     · simp [e]
 
+/-! ### Document layer: documents and project sources stay in step (memory budget included) -/
+
+/-- **Document layer, every history incl. evictions under the memory budget.**  After any history
+of didOpen / index / didChange / didClose / delete events and budget passes with ANY choice of
+(closed) victims, from a client that keeps the protocol, the project holds a text for a key exactly
+when the document layer holds a document for it, and that text is the document's content: the
+analysis is the analysis of the documents held.  (This is the statement the fresh-server oracle
+tests on budget sessions.) -/
+theorem c13_doclayer_in_step (h : List (DOp Text)) (hw : docWf DocLayer.new h) :
+    ∀ k, (docRun h).src k = ((docRun h).doc k).map (·.1) :=
+  docRun_inv_from h DocLayer.new (fun _ => rfl) hw
+
+/-- **A deleted file leaves the analysis, whatever was evicted before.**  After the delete event for
+`k` the project has no text for `k` — also when the document had been evicted earlier (then
+`remove_document` returns early, and by `c13_doclayer_in_step` there was nothing left to remove).
+An eviction that dropped only the document would make exactly this false: the seeded change this
+part of the model was added for. -/
+theorem c13_doclayer_deleted_is_gone (h : List (DOp Text)) (hw : docWf DocLayer.new h) (k : Nat) :
+    (docRun (h ++ [.remove k])).src k = none ∧ (docRun (h ++ [.remove k])).doc k = none := by
+  have i := c13_doclayer_in_step h hw k
+  simp only [docRun, List.foldl_append, List.foldl_cons, List.foldl_nil, docStep] at *
+  unfold docRemove
+  cases hd : (List.foldl docStep DocLayer.new h).doc k with
+  | none =>
+    rw [hd] at i
+    exact ⟨i, hd⟩
+  | some d => simp [upd]
+
+omit [DecidableEq Text] in
+/-- **Eviction takes closed documents only.**  A document that is open survives every budget pass,
+with its text. -/
+theorem c13_doclayer_evict_keeps_open (s : DocLayer Text) (ks : List Nat) (k : Nat) (c : Text)
+    (ho : s.doc k = some (c, true)) :
+    (ks.foldl docEvict1 s).doc k = some (c, true) ∧ (ks.foldl docEvict1 s).src k = s.src k := by
+  induction ks generalizing s with
+  | nil => exact ⟨ho, rfl⟩
+  | cons j ks ih =>
+    have key : (docEvict1 s j).doc k = some (c, true) ∧ (docEvict1 s j).src k = s.src k := by
+      unfold docEvict1
+      split
+      · rename_i c' hj
+        have ne : k ≠ j := by
+          intro e; subst e; rw [ho] at hj; cases hj
+        unfold docRemove
+        simp [hj, upd, ne, ho]
+      · exact ⟨ho, rfl⟩
+    obtain ⟨h1, h2⟩ := ih (docEvict1 s j) key.1
+    exact ⟨h1, h2.trans key.2⟩
+
 /-! ### A repaired finding in the analysis itself (`C13-enum-next-value-overflow`, fixed by 0bd32a4)
 
 The clause "no query panics for any file contents" is about the queries, which the model leaves
@@ -468,5 +517,18 @@ example :
       projText (projRunX h) 1 = some 101 ∧ projText (projRunX h) 2 = none ∧
       sortById (projRunX h).ids = [(1, 3), (5, 2)] := by
   decide
+
+/-- `c13_doclayer_in_step` / `c13_doclayer_deleted_is_gone` are not vacuous: the history of the budget
+regression session — library indexed, user opened and edited, a second big file indexed, the library
+evicted, then deleted — keeps the protocol; the library is gone, the user's text is the edited one. -/
+example :
+    docWf (DocLayer.new : DocLayer Nat)
+      [.index 0 10, .index 1 11, .openDoc 1 11, .change 1 12, .index 2 13, .evict [0], .remove 0] ∧
+    (docRun ([.index 0 10, .index 1 11, .openDoc 1 11, .change 1 12, .index 2 13, .evict [0], .remove 0] :
+      List (DOp Nat))).src 0 = none ∧
+    (docRun ([.index 0 10, .index 1 11, .openDoc 1 11, .change 1 12, .index 2 13, .evict [0], .remove 0] :
+      List (DOp Nat))).src 1 = some 12 := by
+  refine ⟨?_, by decide, by decide⟩
+  simp [docWf, docStep, upd, DocLayer.new]
 
 end TrustVerif.C13
